@@ -30,6 +30,129 @@ Proof. exact (Client_proofs4.C14_state_persists s o p ps c). Qed.
 Print Assumptions C14_one_outstanding.
 Print Assumptions C14_outstanding_blocks_poll.
 Print Assumptions C14_state_persists.
+(* ---- handler side (package E: Handler.v = client.rs ClientConnectionHandler over FramedWrite.v, scripted stream I/O,
+   virtual clock).  For ANY op list and ANY stream behaviour: at most one frame per stream, the frames are the messages of
+   distinct send_wantlist calls in order, the bytes a stream accepted are a prefix of its one frame (C14_one_frame);
+   Ready is reported exactly when the flush of the complete frame succeeded (C14_ready_iff_flushed) and, under the
+   behaviour's discipline, Ready means the last wantlist was written completely (C14_ready_means_delivered); reports
+   follow Ready -> RequestReceived -> (Sending)? -> (Ready | Failed) with exactly one terminal outcome per accepted
+   wantlist, closing while outstanding reports Failed, a cooperative stream reaches Ready, the 5 s timeout reports
+   Failed (C14_no_silent_loss). *)
+From BS Require Import Bytes Types FramedWrite Handler Handler_proofs.
+Open Scope N_scope.
+
+Theorem C14_one_frame :
+  forall (encode : message -> bytes) (c : conn) (ops : list hop),
+  let st := handler_final encode c ops in
+  let outs := handler_outs encode c ops in
+  NoDup (map fst (h_frames st)) /\
+  subseq (map snd (h_frames st)) (map wantlist_message (sent_ws ops)) /\
+  (forall id : N, prefix (wrote_on id outs) (FB encode (h_frames st) id)).
+Proof. exact (@Handler_proofs.C14_one_frame). Qed.
+
+Theorem C14_ready_iff_flushed :
+  forall (encode : message -> bytes) (st : hstate) (s : list io) (r : iter_res) (st' : hstate) 
+    (s' : list io) (o : list hout),
+  poll_iter encode st s = (r, st', s', o) ->
+  h_queue st = [] ->
+  In (EvState SsReady) (h_queue st') <->
+  h_halted st = false /\
+  timeout_fired st = false /\
+  h_msg st = None /\
+  h_sending st <> SsReady /\
+  (exists (id : N) (buf : bytes), h_sink st = SkReady id buf /\ fr_res (fw_poll_flush buf s) = PrOk).
+Proof. exact (@Handler_proofs.C14_ready_iff_flushed). Qed.
+
+Theorem C14_ready_means_delivered :
+  forall (encode : message -> bytes) (c : conn) (ops : list hop),
+  disciplined encode true c ops = true ->
+  let st := handler_final encode c ops in
+  let outs := handler_outs encode c ops in
+  h_queue st = [] ->
+  last (reports outs) RpReady = RpReady ->
+  sent_ws ops <> [] ->
+  exists (fr0 : list (N * message)) (id : N) (w : wantlist) (ws0 : list wantlist),
+    h_frames st = fr0 ++ [(id, wantlist_message w)] /\
+    sent_ws ops = ws0 ++ [w] /\ wrote_on id outs = encode (wantlist_message w).
+Proof. exact (@Handler_proofs.C14_ready_means_delivered). Qed.
+
+Theorem C14_report_protocol :
+  forall (encode : message -> bytes) (c : conn) (ops : list hop),
+  disciplined encode true c ops = true -> chain_ok c RpReady (reports (handler_outs encode c ops)).
+Proof. exact (@Handler_proofs.C14_report_protocol). Qed.
+
+Theorem C14_no_silent_loss :
+  forall encode : message -> bytes,
+  (forall (c : conn) (ops : list hop),
+   disciplined encode true c ops = true -> chain_ok c RpReady (reports (handler_outs encode c ops))) /\
+  (forall (st : hstate) (s : list io),
+   h_panicked st = false ->
+   h_closing st = false ->
+   (exists (t : time) (c : conn), h_sending st = SsRequestReceived t c \/ h_sending st = SsSending t c) ->
+   exists pre : list hout,
+     snd (hstep encode st (HPollClose s)) = pre ++ [HReport (RpFailed (h_conn st)); HClosing]) /\
+  (forall (ss : list (list io)) (st : hstate) (id : N) (buf : bytes) (t : time) (c : conn),
+   h_panicked st = false ->
+   h_queue st = [] ->
+   h_halted st = false ->
+   h_timeout st = None ->
+   h_msg st = None ->
+   h_sink st = SkReady id buf ->
+   h_sending st = SsSending t c ->
+   buf <> [] ->
+   Forall good_script ss ->
+   (length buf <= length ss)%nat -> In (HReport RpReady) (snd (hrun encode st (map HPoll ss)))) /\
+  (forall (st : hstate) (s : list io) (d : time),
+   h_halted st = false ->
+   h_timeout st = Some d ->
+   d <= h_now st ->
+   last_state (h_queue st) <> Some (SsFailed (h_conn st)) ->
+   (last_state (h_queue st) = None -> h_sending st <> SsFailed (h_conn st)) ->
+   (forall x : sending_state, last_state (h_queue st) = Some x -> h_sending st = x) ->
+   In (HReport (RpFailed (h_conn st))) (snd (do_poll encode st s)) /\
+   h_halted (fst (do_poll encode st s)) = true /\ h_msg (fst (do_poll encode st s)) = None).
+Proof. exact (@Handler_proofs.C14_no_silent_loss). Qed.
+
+Theorem C14_send_completes :
+  forall (encode : message -> bytes) (st : hstate) (s : list io) (m : message) (id : N) (t : time),
+  h_queue st = [] ->
+  h_halted st = false ->
+  timeout_fired st = false ->
+  h_msg st = Some m ->
+  h_sink st = SkReady id [] ->
+  h_sending st = SsRequestReceived t (h_conn st) ->
+  fr_res (fw_poll_flush (encode m) s) = PrOk ->
+  let r := do_poll encode st s in
+  (exists o1 : list hout, snd r = HReport (RpSending (h_conn st)) :: o1 ++ [HDropped id; HReport RpReady]) /\
+  wrote_on id (snd r) = encode m /\
+  h_sending (fst r) = SsReady /\
+  h_msg (fst r) = None /\
+  h_sink (fst r) = SkNone /\ h_timeout (fst r) = None /\ h_frames (fst r) = h_frames st ++ [(id, m)].
+Proof. exact (@Handler_proofs.C14_send_completes). Qed.
+
+Theorem C14_progress_reaches_ready :
+  forall (encode : message -> bytes) (ss : list (list io)) (st : hstate) (id : N) 
+    (buf : bytes) (t : time) (c : conn),
+  h_panicked st = false ->
+  h_queue st = [] ->
+  h_halted st = false ->
+  h_timeout st = None ->
+  h_msg st = None ->
+  h_sink st = SkReady id buf ->
+  h_sending st = SsSending t c ->
+  buf <> [] ->
+  Forall good_script ss ->
+  (length buf <= length ss)%nat -> In (HReport RpReady) (snd (hrun encode st (map HPoll ss))).
+Proof. exact (@Handler_proofs.C14_progress_reaches_ready). Qed.
+
+Print Assumptions C14_one_frame.
+Print Assumptions C14_ready_iff_flushed.
+Print Assumptions C14_ready_means_delivered.
+Print Assumptions C14_report_protocol.
+Print Assumptions C14_no_silent_loss.
+Print Assumptions C14_send_completes.
+Print Assumptions C14_progress_reaches_ready.
+
 
 (* ---- records-agree half (Net.v; package F).  For every reachable net: after a settle and a refresh, everything the
    requester still wants is registered at every connected serving node (want set and waiter list).  The converse
